@@ -1288,6 +1288,118 @@ class JobDocSetter(FSContract):
             ex.oblige(self.oname("ensures:the_reset_goes_to_this_job's_document_file"), z3.And(fn.p == pre["p"], fn.i == pre["me"], fn.name == Name.DOC))
 
 
+class ProjDocGetter(FSContract):
+    target = f"{PRJ}.Project.document"
+    properties = ("C05", "C10")
+    faults = False
+
+    def setup(self, interp, case):
+        from .jobfs import SDoc
+        from pyvc.theory_fs import LPF, PName
+        ex, ctx = interp.ex, interp.ctx
+        ctx.fs_init(ex)
+        proj = mk_project(ex)
+        if ex.decide(None, "pre:document handle already open"):
+            proj.fields["_document"] = SDoc(LPF(proj.p, PName.PDOC), True)
+        return [proj], {}, {"proj": proj, "had": proj.fields["_document"]}
+
+    def post(self, interp, case, pre, outcome):
+        from .jobfs import SDoc
+        from pyvc.theory_fs import LPF, PName
+        ex, ctx, proj = interp.ex, interp.ctx, pre["proj"]
+        if outcome[0] != "return":
+            ex.oblige(self.oname("raises:nothing"), False, note=repr(outcome[1]))
+            return
+        d = outcome[1]
+        ok = isinstance(d, SDoc) and isinstance(d.filename, LPF) and d.write_concern is True and proj.fields["_document"] is d
+        ex.oblige(self.oname("ensures:returns_the_cached_handle_with_write_concern_True"), z3.BoolVal(bool(ok)), note=repr(d))
+        if ok:
+            ex.oblige(self.oname("ensures:handle_is_bound_to_this_project's_document_file"), z3.And(d.filename.p == proj.p, d.filename.n == PName.PDOC))
+        ex.oblige(self.oname("ensures:an_open_handle_is_reused"), z3.BoolVal(pre["had"] is None or d is pre["had"]))
+        ex.oblige(self.oname("frame:handing_out_the_handle_writes_nothing"), ctx.fs.eq(ctx.fs0))
+
+
+class ProjDocSetter(FSContract):
+    target = f"{PRJ}.Project.document.setter"
+    properties = ("C05",)
+    inline = GETTERS + (f"{PRJ}.Project.document",)
+    faults = False
+
+    def setup(self, interp, case):
+        from .jobfs import SDoc
+        from pyvc.theory_fs import LPF, PName
+        ex, ctx = interp.ex, interp.ctx
+        ctx.fs_init(ex)
+        proj = mk_project(ex)
+        if ex.decide(None, "pre:document handle already open"):
+            proj.fields["_document"] = SDoc(LPF(proj.p, PName.PDOC), True)
+        ctx.ghost["resets"] = []
+
+        def doc_write(interp_, doc, what, *a):
+            ctx.ghost["resets"].append((doc, what))
+            return None
+        ctx.doc_write = doc_write
+        return [proj, SNewDoc()], {}, {"proj": proj}
+
+    def post(self, interp, case, pre, outcome):
+        from pyvc.theory_fs import LPF, PName
+        ex, ctx, proj = interp.ex, interp.ctx, pre["proj"]
+        if outcome[0] != "return":
+            ex.oblige(self.oname("raises:nothing"), False, note=repr(outcome[1]))
+            return
+        rs = ctx.ghost["resets"]
+        ok = len(rs) == 1 and rs[0][1] == "reset" and isinstance(rs[0][0].filename, LPF)
+        ex.oblige(self.oname("ensures:assignment_resets_the_persistent_project_document_exactly_once_whatever_the_new_value"), z3.BoolVal(ok), note=str([r[1] for r in rs]))
+        if ok:
+            fn = rs[0][0].filename
+            ex.oblige(self.oname("ensures:the_reset_goes_to_this_project's_document_file"), z3.And(fn.p == proj.p, fn.n == PName.PDOC))
+
+
+class DocAlias(Contract):
+    """`doc` is `document` (getter and setter), for jobs and for projects"""
+    properties = ("C05",)
+
+    def __init__(self, owner, setter):
+        self.owner, self.setter = owner, setter
+        self.target = f"{owner}.doc" + (".setter" if setter else "")
+        super().__init__()
+
+    def make_ctx(self, case):
+        ctx = super().make_ctx(case)
+        g = ctx.ghost
+        g["calls"] = []
+        tok = ("the-document",)
+
+        def getter(interp, b):
+            g["calls"].append(("get", b["self"]))
+            return tok
+
+        def setter(interp, b):
+            vals = [v for k, v in b.items() if k != "self"]
+            g["calls"].append(("set", b["self"], vals[0] if vals else None))
+        ctx.callee_contracts[f"{self.owner}.document"] = getter
+        ctx.callee_contracts[f"{self.owner}.document.setter"] = setter
+        g["tok"] = tok
+        return ctx
+
+    def setup(self, interp, case):
+        rp = interp.repo
+        mod = self.owner.rsplit(".", 1)[0]
+        rp.load(mod)
+        o = Obj(rp.classes[self.owner])
+        new = ("new-value",)
+        return ([o, new] if self.setter else [o]), {}, {"o": o, "new": new}
+
+    def post(self, interp, case, pre, outcome):
+        ex, g = interp.ex, interp.ctx.ghost
+        if self.setter:
+            ok = outcome[0] == "return" and g["calls"] == [("set", pre["o"], pre["new"])]
+            ex.oblige(self.oname("ensures:assigning_to_doc_assigns_to_document"), z3.BoolVal(bool(ok)), note=repr(g["calls"]))
+        else:
+            ok = outcome == ("return", g["tok"]) and g["calls"] == [("get", pre["o"])]
+            ex.oblige(self.oname("ensures:doc_is_the_document"), z3.BoolVal(bool(ok)), note=repr((outcome, g["calls"])))
+
+
 class BufferAliases(Contract):
     """signac.buffered & friends are the buffering context of the very class job/project documents are made of"""
     target = f"{JOB}.Job.id"     # anchor only: the obligations are concrete identities of module attributes
@@ -1315,7 +1427,8 @@ class BufferAliases(Contract):
                              and signac.JSONDict is BufferedJSONAttrDict))
 
 
-CONTRACTS += [JobDocGetter(), JobDocSetter(), BufferAliases()]
+CONTRACTS += [JobDocGetter(), JobDocSetter(), BufferAliases(), ProjDocGetter(), ProjDocSetter(),
+              DocAlias(f"{JOB}.Job", False), DocAlias(f"{JOB}.Job", True), DocAlias(f"{PRJ}.Project", False), DocAlias(f"{PRJ}.Project", True)]
 
 
 # ============================================================================= Job.clear / Job.reset
